@@ -261,6 +261,7 @@ func runC16(rc *RunCtx) {
 	ln := LNConfig{FeePolicy: T.Choose("cfg.feepol", 3), PayOutcomeMix: T.Choose("cfg.mix", 2)}
 	rc.NewMintWorld(ln, MintOpts{Fee: fee, Limits: lim})
 	m := NewMW(rc, "A")
+	m.Locks = true
 	m.Fees = map[string][]uint64{"A": {uint64(fee), 100, 0}}
 	rc.Quietly(func() {
 		// fund within the limits
